@@ -1,6 +1,7 @@
 //! `serde.*`, `grp.*`
 
 use crate::util::*;
+use curve25519_dalek::verif_hooks as vh;
 use curve25519_dalek::edwards::{CompressedEdwardsY, EdwardsPoint, SubgroupPoint};
 use curve25519_dalek::montgomery::MontgomeryPoint;
 use curve25519_dalek::ristretto::{CompressedRistretto, RistrettoPoint};
@@ -211,6 +212,50 @@ pub fn grp_op(op: &str, a: &[&str]) -> R {
             let p = pt(a[0])?;
             let c = CofactorGroup::is_torsion_free(&p);
             ok_bool(c.unwrap_u8() == 1)
+        }
+        // the `group::Group` trait methods themselves (UFCS, so that no inherent method or other trait is picked)
+        "ed_group" => {
+            arity(a, 1)?;
+            let p = pt(a[0])?;
+            let mut o = String::new();
+            push_choice(&mut o, <EdwardsPoint as group::Group>::is_identity(&p));
+            push_hex(&mut o, &GroupEncoding::to_bytes(&<EdwardsPoint as group::Group>::double(&p)));
+            push_hex(&mut o, &GroupEncoding::to_bytes(&<EdwardsPoint as group::Group>::identity()));
+            push_hex(&mut o, &GroupEncoding::to_bytes(&<EdwardsPoint as group::Group>::generator()));
+            Ok(o)
+        }
+        "sub_group" => {
+            arity(a, 1)?;
+            let p = pt(a[0])?;
+            match Option::<SubgroupPoint>::from(CofactorGroup::into_subgroup(p)) {
+                Some(q) => {
+                    let mut o = String::new();
+                    push_choice(&mut o, <SubgroupPoint as group::Group>::is_identity(&q));
+                    push_hex(&mut o, &GroupEncoding::to_bytes(&<SubgroupPoint as group::Group>::double(&q)));
+                    push_hex(&mut o, &GroupEncoding::to_bytes(&<SubgroupPoint as group::Group>::identity()));
+                    push_hex(&mut o, &GroupEncoding::to_bytes(&<SubgroupPoint as group::Group>::generator()));
+                    Ok(o)
+                }
+                None => Err(Fail::None),
+            }
+        }
+        // `ris_group R j`: the element encoded by R, held as its j-th coset representative (P + T, T in E[4])
+        "ris_group" => {
+            arity(a, 2)?;
+            let c = CompressedRistretto(hx::<32>(a[0])?);
+            let j = int_in(a[1], 0, 3)? as usize;
+            match c.decompress() {
+                Some(p0) => {
+                    let p = vh::ristretto_add_torsion(&p0, j);
+                    let mut o = String::new();
+                    push_choice(&mut o, <RistrettoPoint as group::Group>::is_identity(&p));
+                    push_hex(&mut o, &GroupEncoding::to_bytes(&<RistrettoPoint as group::Group>::double(&p)));
+                    push_hex(&mut o, &GroupEncoding::to_bytes(&<RistrettoPoint as group::Group>::identity()));
+                    push_hex(&mut o, &GroupEncoding::to_bytes(&<RistrettoPoint as group::Group>::generator()));
+                    Ok(o)
+                }
+                None => Err(Fail::None),
+            }
         }
         "from_uniform" => {
             arity(a, 1)?;
